@@ -1,6 +1,6 @@
 CONSTANTS PinnedSeqReset = FALSE  PinnedAnyDrop = FALSE
   Fam = "CAT"  MaxLen = 3  Alphabet = {97, 98}  Base = 1  NSlices = 1  Slice = 0
-  MaxCalls = 400  MaxDepth = 150  MaxRes = 16  NameAll = FALSE  DoExport = FALSE
+  MaxCalls = 400  MaxDepth = 150  MaxRes = 16  Wrap = "none"  TwoPhase = FALSE  NameAll = FALSE  DoExport = FALSE
 INIT Init
 NEXT Next
 CONSTRAINT Budget
